@@ -35,6 +35,7 @@ inductive Plan
   | okFrom (attempt : Nat) (code : Nat)
   | omit
   | killed (signal : Nat)          -- writes the return file, then dies by a signal (return code `-signal`)
+  | okUntil (attempt : Nat) (code : Nat)   -- succeeds before the given attempt, fails with `code` from it on
 deriving Repr, DecidableEq
 
 /-- return code of the command (negative: killed by that signal) and whether the return file was written, at the
@@ -46,6 +47,7 @@ def outcome : Plan → Nat → Int × Bool
   | .okFrom n c, a => if n ≤ a then (0, true) else (c, false)
   | .omit, _ => (0, false)
   | .killed s, _ => (-(s : Int), true)
+  | .okUntil n c, a => if a < n then (0, true) else (c, false)
 
 /-- one cache file `<job>.out` -/
 structure Ent where
